@@ -14,6 +14,10 @@
     (lexicographic), which equals big-endian numeric order only for equal lengths; every such
     comparison in the lookup routines is reached only through the equal-length edge of a
     `len() == len()` test — otherwise a 1-byte prefix of a 2-byte code matches a 2-byte range.
+ R7 complete search: the loops of the lookup routines that scan the mapping list (kept in file
+    order, never sorted) leave the loop only when the list is exhausted or with a match; an early
+    `break`/fall-out that rejoins the not-found continuation skips later entries, so a range listed
+    after a higher one (legal: bfrange entries need not be sorted) becomes unreachable.
 Not decided: the mapped values themselves.
 """
 from .. import lib as L
@@ -88,9 +92,61 @@ def check_range_length_gate(ctx, rule):
     ctx.floor(rule, "slice-order comparisons in CMap lookups", n, 5)
 
 
+def check_complete_search(ctx, rule):
+    facts = ctx.facts
+    from .. import cycles as CY
+    n = 0
+    sorted_at_build = False
+    for f in facts.fns.values():
+        if f.id.startswith(M):
+            for b, c, a, d in L.calls_matching(f, lambda c: "sort" in L.short(c.get("p") or "")):
+                r = L.recv_of(f, a)
+                if r and "mappings" in r[1]:
+                    sorted_at_build = True
+    for fid in (M + "CMap::map", M + "CMap::source_code_for_unicode"):
+        fn = ctx.fn(fid, rule)
+        g = CF.cfg(fn)
+        k = 0
+        for h, body in sorted(g.loops().items()):
+            nexts = [b for b in body if fn.term(b)[0] == "call" and L.is_call_to(fn.term(b)[1], ["Iterator::next"])
+                     and "CMapEntry" in (fn.term(b)[1].get("self") or "")]
+            if not nexts:
+                continue
+            k += 1
+            n += 1
+            key = "%s:mapping-scan#%d:complete" % (L.short(fid), k)
+            # the exhausted edge: switch on the discriminant of the next() result, edge to outside the loop
+            dest = fn.term(nexts[0])[3][0]
+            y, no = L.discr_edges(fn, dest, 0)
+            exhausted = [t for s_, t in y if t not in body]
+            exits = [(b, s2) for b in body for s2 in g.succ[b] if s2 not in body]
+            if not exhausted:
+                ctx.undecided_site(rule, key, "exhausted edge of the scan not identified", fn.where(h))
+                continue
+            E = exhausted[0]
+            # an exit "rejoins the not-found continuation" when it shares with the exhausted edge some block that still does
+            # work (a call or a branch); a match exit shares only the return / drop epilogue
+            reach_e = g.reachable_from(E)
+
+            def rejoins(s2):
+                common = g.reachable_from(s2) & reach_e
+                return any(fn.term(x)[0] in ("call", "sw") and not fn.is_cleanup(x) for x in common)
+            early = [(b, s2) for b, s2 in exits if s2 != E and fn.term(s2)[0] != "unr" and rejoins(s2)] + \
+                    [(b, s2) for b, s2 in exits if s2 == E and not any(b == s_ for s_, t in y)]
+            if early and not sorted_at_build:
+                ctx.violation(rule, key, "the scan over the mapping list in %s can be left early (at %s) into the not-found continuation "
+                              "without a match: the list is kept in file order and never sorted, so an entry listed after a higher "
+                              "one is skipped and its codes map to nothing (or to the identity fallback)" % (L.short(fid), fn.where(early[0][0])),
+                              fn.where(early[0][0]))
+            else:
+                ctx.ok(rule, key, "left only when exhausted or with a match" + (" (list sorted at build time)" if early else ""), fn.where(h))
+    ctx.floor(rule, "mapping-list scans in CMap lookups", n, 2)
+
+
 def run(ctx):
     facts = ctx.facts
     check_range_length_gate(ctx, "R6")
+    check_complete_search(ctx, "R7")
     bld = ctx.fn(M + "ToUnicodeCMapBuilder::build", "anchor")
     prs = ctx.fn(M + "CMap::parse", "anchor")
     emitted = strings_in(facts, bld.id)
